@@ -981,3 +981,31 @@ func varargsOfLibraryCall(a *ssa.Alloc) bool {
 	}
 	return false
 }
+
+
+// libName: the name a library function is known by in the summaries. Instances of the generic helpers of the
+// standard library answer to the classic function they stand for — slices.Sort on []int is sort.Ints, on []float64
+// sort.Float64s, on []string sort.Strings — or to "pkg.Name" without the type arguments (slices.Clone, maps.Clone).
+func libName(f *ssa.Function) string {
+	if f == nil {
+		return ""
+	}
+	o := f.Origin()
+	if o == nil || o.Pkg == nil {
+		return f.String()
+	}
+	path, name := o.Pkg.Pkg.Path(), o.Name()
+	if path == "slices" && name == "Sort" && len(f.TypeArgs()) > 0 {
+		if sl, ok := f.TypeArgs()[0].Underlying().(*types.Slice); ok {
+			switch sl.Elem().String() {
+			case "int":
+				return "sort.Ints"
+			case "float64":
+				return "sort.Float64s"
+			case "string":
+				return "sort.Strings"
+			}
+		}
+	}
+	return path + "." + name
+}
